@@ -242,7 +242,8 @@ def run_c16(facts, rep):
         rep.ok(R + "(pure)", "BlakeRNG", "no entropy/time source reachable from BlakeRNG's methods (%d functions)" % len(reach))
     rf = "util::random_generator::BlakeRNG::refill_buffer"
     if rep.anchor(R + "(pure)", rf, rf in facts.hir):
-        reads = {x["name"] for x in walk(facts.hir[rf]) if x.get("k") == "Field"}
+        reads = {x["name"] for x in walk(facts.hir[rf]) if x.get("k") == "Field" and not str(x["name"]).isdigit()}   # `seed.0`: a tuple
+                                                                                              # field of the seed newtype
         if reads <= {"seed", "counter", "buffer", "buffer_current"} and {"seed", "counter"} <= reads:
             rep.ok(R + "(pure)", rf, "refill hashes (seed, counter) only", facts.loc(rf))
         else:
